@@ -150,6 +150,8 @@ def gen_cases(rng, tier):
                 out.append(m)
         yield dict(kind="cli_args", op="get_class", modules=out, tag=i)
     yield from gen_get_args(rng, tier)
+    yield from gen_parser(rng, tier, wire=True)
+    yield from gen_parser_synth(rng, tier)
 
 
 # ------------------------------------------------------------------------------------------------ get_args() of the four wrappers
@@ -202,6 +204,8 @@ def gen_get_args(rng, tier, only=None):
             frac = rng.choice(["0.1", "0.25", "0.5", "1", "1.0", "0", "0.75", "1e-2"])
             argv += ["--holdout-fraction", frac]
         yield dict(kind="cli_args", op="get_args", cli=cli, argv=argv, chosen=[[a, n, p] for _o, a, n, p in chosen], frac=frac)
+    if only is not None:      # the harnesses of C06 / C04 / C03: the real parser of their wrapper on generated command lines (predicate only)
+        yield from gen_parser(rng, tier, commands=[only])
 
 
 def _run_get_args(d, feats):
@@ -446,6 +450,8 @@ def run_case(d):
         return _run_get_class(d, feats, introspection)
     if op == "get_args":
         return _run_get_args(d, feats)
+    if op in ("parser", "parser_synth"):
+        return _run_parser(d, feats)
     raise ValueError(op)
 
 
@@ -559,3 +565,449 @@ def explanation(parts, what):
             "configurations ARGS_* of harness/src_functions.py) and proved equal to the models at the end of Model/Cli.v, for EVERY "
             "record of primitives.  These links trust %s; %s; and EXACTLY these primitives - %s.  "
             % (what, _TRANSLATOR, _REPRESENTATION, "; ".join(ARGS_PRIMS[p] for p in parts)))
+
+
+# ================================================================================================ the argparse option tables
+# (ops "parser" / "parser_synth").  harness/argparse_reader.py reads each get_parser() from the source text; here the SAME reading is
+# compared with the real parser object the source builds, the real parser is run on generated command lines (the namespace's attribute
+# set = the table's dests, absent options = the table's defaults, every attribute the argument record of the command reads has the kind
+# the record assumes), and - under C18, whose driver has op 13 - argparse's reading of each declaration (dest derivation, default,
+# kind of value, None-able) is compared with the model's (Cli.opt_dest / opt_default / opt_kind / opt_may_be_none).  "parser_synth":
+# the same on synthetic get_parser sources (random declarations), so that reader and model are exercised beyond the nine shipped tables.
+_ACT_CODE = {"ActStore": 0, "ActStoreTrue": 1, "ActStoreFalse": 2, "ActAppend": 3, "ActCount": 4, "ActKVAppend": 5}
+_ACT_SRC = {"ActStore": None, "ActStoreTrue": '"store_true"', "ActStoreFalse": '"store_false"', "ActAppend": '"append"', "ActCount": '"count"',
+            "ActKVAppend": "KVAppendAction"}
+_TYPE_CODE = {"int": 0, "float": 1, "str": 2, "str_to_bool": 3}
+_NARGS_CODE = {"+": 1, "*": 2, "?": 3}
+
+
+def _lit_wire(v):
+    if v is None:
+        return [0]
+    if type(v) is bool:
+        return [1, int(v)]
+    if type(v) is int:
+        return [2, v]
+    if type(v) is float and v == v and abs(v) != float("inf"):
+        return [3] + common.frac(v)
+    if type(v) is str:
+        return [4, s2l(v)]
+    if type(v) is list and not v:
+        return [5]
+    return ["?", repr(v)]
+
+
+def _row_wire(o):
+    nargs = [] if o["nargs"] is None else [[0, o["nargs"]]] if type(o["nargs"]) is int else [[_NARGS_CODE[o["nargs"]]]]
+    return [[s2l(f) for f in o["flags"]], [] if o["dest_kw"] is None else [s2l(o["dest_kw"])], s2l(o["dest"]),
+            [] if o["type"] is None else [_TYPE_CODE[o["type"]]], [_lit_wire(o["default"])] if o["has_default"] else [],
+            int(o["required"]), _ACT_CODE[o["action"]], nargs]
+
+
+def _kind_of(v):
+    """the kind of a namespace value, as the model's nskind wire; a list's element kind is None when the list is empty"""
+    if type(v) is bool:
+        return [3]
+    if type(v) is int:
+        return [0]
+    if type(v) is float:
+        return [1]
+    if type(v) is str:
+        return [2]
+    if type(v) is dict and all(type(k) is str and type(x) is str for k, x in v.items()):
+        return [5]
+    if type(v) is list:
+        ks = [_kind_of(x) for x in v]
+        if not ks:
+            return [4, None]
+        return [4, ks[0]] if all(k == ks[0] for k in ks) else "?"
+    return "?"
+
+
+def _kind_match(want, got):
+    if isinstance(want, list) and isinstance(got, list) and want[:1] == [4] and got[:1] == [4]:
+        return got[1] is None or want[1] is None or _kind_match(want[1], got[1])
+    return want == got
+
+
+def _words(o, rng):
+    """the command-line words that give option o once (None: the option cannot be given sensibly)"""
+    one = {"int": ["7", "-3", "0"], "float": ["0.25", "1", "1e-2"], "str": ["w.h5", "x"], None: ["w.h5", "x"], "str_to_bool": ["yes", "No"]}[o["type"]]
+    flag = rng.choice(o["flags"])
+    act, nargs = o["action"], o["nargs"]
+    if act in ("ActStoreTrue", "ActStoreFalse", "ActCount"):
+        return [flag]
+    if act == "ActKVAppend":
+        return [flag, rng.choice(["k=v", "a=1", "min_size=3"])] if nargs == 1 else None
+    n = 1 if nargs is None else rng.randint(1, 3) if nargs in ("+", "*") else rng.randint(0, 1) if nargs == "?" else nargs
+    if n < 0:
+        return None
+    return [flag] + [rng.choice(one) for _ in range(n)]
+
+
+def _parse(parser, argv):
+    import contextlib
+    import io
+    with contextlib.redirect_stderr(io.StringIO()):
+        return common.impl_call(parser.parse_args, list(argv))
+
+
+def _effective_default(o):
+    if o["has_default"]:
+        return o["default"]
+    return {"ActStoreTrue": False, "ActStoreFalse": True}.get(o["action"])
+
+
+def _same(a, b):
+    return type(a) is type(b) and a == b
+
+
+def _table_vs_object(table, parser, ap):
+    """None, or how the table read from the source text differs from the parser object the source builds"""
+    cls = {"ActStore": argparse._StoreAction, "ActStoreTrue": argparse._StoreTrueAction, "ActStoreFalse": argparse._StoreFalseAction,
+           "ActAppend": argparse._AppendAction, "ActCount": argparse._CountAction, "ActKVAppend": ap.KVAppendAction}
+    typ = {None: None, "int": int, "float": float, "str": str, "str_to_bool": ap.str_to_bool}
+    real = [a for a in parser._actions if not isinstance(a, argparse._HelpAction)]
+    if len(real) != len(table):
+        return "the parser object has %d options, the table read from the source %d" % (len(real), len(table))
+    for a, o in zip(real, table):
+        got = dict(flags=list(a.option_strings), dest=a.dest, required=bool(a.required), type=a.type, cls=type(a), default=a.default,
+                   nargs=a.nargs, choices=None if a.choices is None else list(a.choices))
+        want = dict(flags=o["flags"], dest=o["dest"], required=o["required"], type=typ[o["type"]], cls=cls[o["action"]],
+                    default=_effective_default(o), choices=o["choices"],
+                    nargs=0 if o["action"] in ("ActStoreTrue", "ActStoreFalse", "ActCount") else o["nargs"])
+        for k in want:
+            same = (got[k] is want[k]) if k in ("type", "cls") else (_same(got[k], want[k]) or (got[k] is None and want[k] is None))
+            if not same:
+                return "option %s: the parser object has %s = %r, the table read from the source says %r" % (o["flags"], k, got[k], want[k])
+    return None
+
+
+def _table_from_object(parser, ap):
+    """the declarations as far as the parser object shows them (used only when the reader refuses the source text)"""
+    cls = {argparse._StoreAction: "ActStore", argparse._StoreTrueAction: "ActStoreTrue", argparse._StoreFalseAction: "ActStoreFalse",
+           argparse._AppendAction: "ActAppend", argparse._CountAction: "ActCount", ap.KVAppendAction: "ActKVAppend"}
+    typ = {int: "int", float: "float", str: "str", ap.str_to_bool: "str_to_bool"}
+    out = []
+    for a in parser._actions:
+        if isinstance(a, argparse._HelpAction) or not a.option_strings:
+            continue
+        act = cls.get(type(a), "ActStore")
+        out.append(dict(flags=list(a.option_strings), dest_kw=None, dest=a.dest, type=typ.get(a.type), has_default=True, default=a.default,
+                        required=bool(a.required), action=act, nargs=None if act in ("ActStoreTrue", "ActStoreFalse", "ActCount") else a.nargs,
+                        choices=None))
+    return out
+
+
+# what the argument records assume, taken from the CLI_* / ARGS_* configurations of harness/src_functions.py (the types the
+# translation gives the namespace attributes); `extra_parser_tables` checks that Cli.*_fields of Model/Cli.v says the same
+_CFG_KIND = {"path": ([2], False), "cname": ([2], False), "str": ([2], False), "Z": ([0], False), "bool": ([3], False), "(Z * positive)": ([1], False),
+             "kdict str str": ([5], False)}
+
+
+def _cfg_kind(t):
+    if t.startswith("opt "):
+        return (_cfg_kind(t[4:])[0], True)
+    if t.startswith("list "):
+        return ([4, _cfg_kind(t[5:])[0]], False)
+    return _CFG_KIND[t]
+
+
+def expected_fields(cli):
+    """{attribute: (kind wire, optional)} - what the translated main() / get_args() of the command read from the namespace"""
+    import src_functions as sf
+    main = {"calculate_scores": sf.CLI_CALCULATE_SCORES, "select_next_plate": sf.CLI_SELECT_NEXT_PLATE, "train_model": sf.CLI_TRAIN_MODEL,
+            "reveal_plate": sf.CLI_REVEAL_PLATE, "prepare_retrospective_simulation": sf.CLI_PREPARE, "extract_screen_metadata": sf.CLI_EXTRACT_METADATA,
+            "calculate_distance_matrix": sf.CLI_DISTANCE_MATRIX, "evaluate_model": sf.CLI_EVALUATE_MODEL}
+    ns = {"calculate_scores": sf._CS_NS_FIELDS, "select_next_plate": sf._SN_NS_FIELDS, "train_model": sf._TM_NS_FIELDS,
+          "prepare_retrospective_simulation": sf._PR_NS_FIELDS}
+    out = {"verbose": ([3], False)}                                   # log_config.configure_logging(args)
+    if cli in main:
+        for a, (_owner, t, _get, _set) in main[cli]["fields"].items():
+            out[a] = _cfg_kind(t)
+        if any(p[0].startswith("get_prng_from_seed_argument") for p in main[cli]["prims"]):
+            out["seed"] = ([0], False)                                # read by the translated get_prng_from_seed_argument
+    for a, (_owner, t, _get, _set) in ns.get(cli, {}).items():
+        if not (a.endswith("_cls") or a.endswith("_params")):         # those two are stored by get_args(), not parsed
+            out.setdefault(a, _cfg_kind(t))
+    if cli == "calculate_distance_matrix":                            # its get_args() is not translated; read from the source text
+        out.update(distance_metric=([2], False), distance_metric_param=([5], True))
+    if cli == "analyze_model_evaluation":                             # neither is its main()
+        out.update(model_evaluation=([2], False), screen=([2], False), thetas=([4, [2]], False), output_dir=([2], False))
+    return out
+
+
+def gen_parser(rng, tier, commands=None, wire=False):
+    """real-parser cases for the given commands (all nine by default); wire=True only under C18 (op 13 of its driver)"""
+    import argparse_reader
+    reps = 6 if tier == "quick" else 40
+    for cli in (commands or argparse_reader.COMMANDS):
+        for i in range(reps):
+            yield dict(kind="cli_args", op="parser", cli=cli, sel=rng.randrange(2 ** 30), mode=("min", "full")[i] if i < 2 else "some", wire=wire)
+
+
+_SYNTH_FLAGS = ["--alpha", "--n-chunks", "--seed", "--x-param", "--out-dir", "-q", "--beta-gamma", "-z", "--k"]
+
+
+def gen_parser_synth(rng, tier):
+    for i in range(60 if tier == "quick" else 600):
+        decls, used = [], set()
+        for j in range(rng.randint(1, 4)):
+            flags = [f for f in rng.sample(_SYNTH_FLAGS, rng.randint(1, 2)) if f not in used]
+            if not flags:
+                continue
+            used.update(flags)
+            act = rng.choice(["ActStore"] * 5 + ["ActStoreTrue", "ActStoreFalse", "ActKVAppend", "ActKVAppend", "ActAppend", "ActCount"])
+            d = dict(flags=flags, action=act, dest_kw=rng.choice([None] * 5 + ["dst%d" % j]), type=None, nargs=None, has_default=False, default=None,
+                     required=rng.random() < 0.25)
+            if act in ("ActStore", "ActAppend") or rng.random() < 0.1:
+                d["type"] = rng.choice([None, "int", "int", "float", "str", "str_to_bool"])
+            if act in ("ActStore", "ActKVAppend", "ActAppend") and rng.random() < (0.9 if act == "ActKVAppend" else 0.4):
+                d["nargs"] = rng.choice([1, 1, 2, "+", "+", "*", "?"]) if act != "ActKVAppend" else rng.choice([1, 1, 1, 1, 2, "+"])
+            if rng.random() < 0.55:
+                d["has_default"] = True
+                fit = {"int": [0, 1, -4], "float": [0.1, 2.5], "str": ["a"], None: ["a", None], "str_to_bool": [True, False]}[d["type"]]
+                d["default"] = rng.choice(fit + [None]) if rng.random() < 0.75 else rng.choice([None, 0, 0.5, "7", True, []])
+                if d["nargs"] in ("+", "*", 2) and rng.random() < 0.6:
+                    d["default"] = []
+            decls.append(d)
+        if decls:
+            yield dict(kind="cli_args", op="parser_synth", decls=decls, sel=rng.randrange(2 ** 30), logging=rng.random() < 0.5, wire=True)
+
+
+def _synth_source(d):
+    lines = ["import argparse", "from batchie import log_config", "from batchie.cli.argument_parsing import KVAppendAction, str_to_bool", "", "",
+             "def get_parser():", "    parser = argparse.ArgumentParser(description='synthetic')"]
+    if d["logging"]:
+        lines.append("    log_config.add_logging_args(parser)")
+    for o in d["decls"]:
+        kws = []
+        if o["dest_kw"] is not None:
+            kws.append("dest=%r" % o["dest_kw"])
+        if o["type"] is not None:
+            kws.append("type=%s" % o["type"])
+        if o["has_default"]:
+            kws.append("default=%s" % ("list()" if o["default"] == [] else repr(o["default"])))
+        if o["required"]:
+            kws.append("required=True")
+        if _ACT_SRC[o["action"]] is not None:
+            kws.append("action=%s" % _ACT_SRC[o["action"]])
+        if o["nargs"] is not None:
+            kws.append("nargs=%r" % o["nargs"])
+        kws.append("help='h'")
+        lines.append("    parser.add_argument(%s)" % ", ".join([repr(f) for f in o["flags"]] + kws))
+    lines.append("    return parser")
+    return "\n".join(lines) + "\n"
+
+
+def _run_parser(d, feats):
+    import random
+
+    import argparse_reader
+    from batchie.cli import argument_parsing as ap
+
+    rng = random.Random(d["sel"])
+    synth = d["op"] == "parser_synth"
+    if synth:
+        src = _synth_source(d)
+        root = tempfile.mkdtemp(dir=common.WORK)
+        try:
+            os.makedirs(os.path.join(root, "src", "batchie", "cli"))
+            for rel in ("src/batchie/log_config.py", "src/batchie/cli/argument_parsing.py"):
+                shutil.copy(os.path.join(common.REPO, rel), os.path.join(root, rel))
+            with open(os.path.join(root, "src", "batchie", "cli", "reveal_plate.py"), "w") as fh:
+                fh.write(src)
+            try:
+                table = argparse_reader.read_parser(root, "reveal_plate")
+            except argparse_reader.Refused as e:
+                return dict(wire=None, impl=None, pred="the reader refuses a get_parser inside its fragment: %s\n%s" % (e, src), features=feats)
+        finally:
+            shutil.rmtree(root, ignore_errors=True)
+        env = {}
+        exec(compile(src, "<synthetic get_parser>", "exec"), env)      # noqa: S102 - the text generated above, nothing else
+        parser = common.impl_call(env["get_parser"])
+        if isinstance(parser, common.ImplError):      # argparse itself refuses the declaration (e.g. nargs with store_true): nothing to compare
+            return dict(wire=None, impl=None, pred=None, features=feats + ["parser_synth:argparse-refuses", "trivial"])
+        fields = {}
+    else:
+        cli = d["cli"]
+        feats = feats + ["parser:" + cli, "parser:%s:%s" % (cli, d["mode"])]
+        parser = importlib.import_module("batchie.cli." + cli).get_parser()
+        fields = expected_fields(cli)
+        try:
+            table = argparse_reader.read_parser(common.REPO, cli)
+        except argparse_reader.Refused:
+            # outside the reader's fragment: the static side reports it (the lemmas about src_parser_<cli> stop compiling); the
+            # command lines are then built from the parser OBJECT, and only the predicates on the real namespace are evaluated
+            table = _table_from_object(parser, ap)
+            feats = feats + ["parser:refused"]
+            d = dict(d, wire=False)
+    pred = None if "parser:refused" in feats else _table_vs_object(table, parser, ap)
+    dests = [o["dest"] for o in table]
+    # command lines: the required options always; the others per mode
+    mode = d.get("mode", "some")
+    req = [o for o in table if o["required"]]
+    opt = [o for o in table if not o["required"]]
+    chosen = opt if mode == "full" else [] if mode == "min" else [o for o in opt if rng.random() < 0.5]
+    order = req + chosen
+    rng.shuffle(order)
+    argv, given, ungivable = [], set(), False
+    for o in order:
+        w = _words(o, rng)
+        if w is None:
+            ungivable = True
+            continue
+        argv += w
+        given.add(o["dest"])
+        if o["action"] == "ActKVAppend" and rng.random() < 0.4:
+            argv += [o["flags"][0], "other=x y"]
+    ns = _parse(parser, argv)
+    obs = None
+    if isinstance(ns, common.ImplError):
+        # a required option that cannot be given (KVAppendAction with nargs != 1 ...) or a '?' / append shape the generator does not
+        # serve: only for synthetic parsers; a shipped parser must accept its well-formed command line
+        if not synth and pred is None:
+            pred = "%s: the well-formed command line %r is refused: %r" % (d.get("cli"), argv, ns)
+        feats = feats + ["parser:refused-line"]
+    else:
+        got = vars(ns)
+        if pred is None and set(got) != set(dests):
+            pred = "the namespace has the attributes %s, the table's dests are %s" % (sorted(got), sorted(set(dests)))
+        if pred is None and len(set(dests)) == len(dests):
+            for o in table:
+                if o["dest"] in given or o["dest"] not in got:
+                    continue
+                want = _effective_default(o)
+                if isinstance(want, str) and o["type"] not in (None, "str"):      # argparse converts a string default through type
+                    continue
+                if not _same(got[o["dest"]], want):
+                    pred = "option %s was not given; args.%s is %r, the table's default is %r" % (o["flags"], o["dest"], got[o["dest"]], want)
+                    break
+        if pred is None:
+            for a, (kind, optional) in fields.items():
+                if a not in got:
+                    pred = "args.%s, which %s reads, is not an attribute of the parsed namespace %s" % (a, d["cli"], sorted(got))
+                elif got[a] is None:
+                    if not optional:
+                        pred = "args.%s is None on the command line %r; the argument record assumes a value" % (a, argv)
+                elif not _kind_match(kind, _kind_of(got[a])):
+                    pred = "args.%s = %r on the command line %r; the argument record assumes kind %s" % (a, got[a], argv, kind)
+                if pred is not None:
+                    break
+        obs = got
+    wire = impl = None
+    if d.get("wire") and len(set(dests)) == len(dests):
+        # argparse's reading of each declaration, observed on the real parser: dest, default, None-able (the value when only the
+        # required options are given), kind (the value when the option is given, which the default - unless None - must share)
+        real = [a for a in parser._actions if not isinstance(a, argparse._HelpAction)]
+        ns_min = _parse(parser, [w for o in req for w in (_words(o, rng) or [])])
+        ns_full = _parse(parser, [w for o in table for w in (_words(o, rng) or [])])
+        impl = []
+        for a, o in zip(real, table):
+            none = "?" if isinstance(ns_min, common.ImplError) else int((not o["required"]) and getattr(ns_min, a.dest) is None)
+            kind = "?" if isinstance(ns_full, common.ImplError) else _kind_of(getattr(ns_full, a.dest))
+            if kind != "?" and not isinstance(ns_min, common.ImplError) and not o["required"] and getattr(ns_min, a.dest) is not None \
+                    and not _kind_match(kind, _kind_of(getattr(ns_min, a.dest))):
+                kind = "inconsistent"
+            impl.append([s2l(a.dest), kind, none, _lit_wire(a.default)])
+        wire = [13, [_row_wire(o) for o in table]]
+    feats = feats + ["parser:n=%d" % len(table), "parser:given=%d" % len(given)] + sorted(set("parser:act=" + o["action"] for o in table))
+    return dict(wire=wire, impl=impl, pred=pred, features=feats, cmp=_cmp_parser)
+
+
+def _cmp_parser(m, i):
+    if isinstance(m, str):
+        return "model driver failure: " + m
+    if len(m) != len(i):
+        return "model read %d options, the parser has %d" % (len(m), len(i))
+    for row_m, row_i in zip(m, i):
+        dest, kind, none, default = row_m
+        if dest != row_i[0]:
+            return "dest: model %r, argparse %r" % (common.l2s(dest), common.l2s(row_i[0]))
+        if default != row_i[3]:
+            return "default of %s: model %r, argparse %r" % (common.l2s(dest), default, row_i[3])
+        if row_i[2] != "?" and none != row_i[2]:
+            return "%s may be None: model %r, observed %r" % (common.l2s(dest), none, row_i[2])
+        if kind and row_i[1] != "?":      # the model claims a kind only for the shapes it knows
+            want = _unwire_kind(kind[0])
+            if not _kind_match(want, row_i[1]):
+                return "kind of args.%s: model %r, observed %r" % (common.l2s(dest), want, row_i[1])
+    return None
+
+
+def _unwire_kind(k):
+    return [4, _unwire_kind(k[1])] if k[0] == 4 else [k[0]]
+
+
+def extra_parser_tables():
+    """whole-run check: the hand-written Cli.*_fields tables of Model/Cli.v name exactly the attributes, kinds and optionality that the
+    CLI_* / ARGS_* configurations of the translated main() / get_args() give the namespace (expected_fields)"""
+    import re
+    txt = common.strip_coq_comments(open(os.path.join(common.COQ, "theories", "Model", "Cli.v")).read())
+    tabs = {"calculate_scores": "cs", "select_next_plate": "sn", "train_model": "tm", "reveal_plate": "rp", "prepare_retrospective_simulation": "pr",
+            "extract_screen_metadata": "em", "calculate_distance_matrix": "cd", "evaluate_model": "ev", "analyze_model_evaluation": "am"}
+    kinds = {"KInt": [0], "KFloat": [1], "KStr": [2], "KBool": [3], "KKV": [5], "(KList KStr)": [4, [2]], "(KList KInt)": [4, [0]]}
+
+    def table(name):
+        m = re.search(r"Definition %s : list nsfield :=\s*\[(.*?)\]\." % name, txt, re.S)
+        return {a: (kinds[k], o == "true") for a, k, o in re.findall(r'fld "([a-z_]+)" (\([A-Za-z ]+\)|[A-Za-z]+) (true|false)', m.group(1))} if m else None
+    bad = []
+    logging = table("logging_fields")
+    for cli, p in tabs.items():
+        got = table(p + "_fields")
+        want = expected_fields(cli)
+        if got is None or logging is None or dict(got, **logging) != want:
+            bad.append("%s: Cli.%s_fields ++ logging_fields = %r, the configurations say %r" % (cli, p, got, want))
+    return [("parser-field-tables-match-configurations", not bad, "; ".join(bad) or "9 commands")]
+
+
+# ---- registration helpers for the harness modules (theorem meanings, evidence text) ----
+_PARSER_FIELDS = {"calculate_scores": "cs_fields", "select_next_plate": "sn_fields", "train_model": "tm_fields", "reveal_plate": "rp_fields",
+                  "prepare_retrospective_simulation": "pr_fields", "extract_screen_metadata": "em_fields", "calculate_distance_matrix": "cd_fields",
+                  "evaluate_model": "ev_fields", "analyze_model_evaluation": "am_fields"}
+_PARSER_MEANING = {
+    "fields": "every namespace attribute the argument record of {c} assumes (Cli.{f}: the projections of the Cli.*_args record the translated main() "
+              "reads, the class-name and KEY=VALUE attributes get_args() reads, plus args.verbose of configure_logging) is the dest of EXACTLY ONE "
+              "option of the table read from {c}.get_parser() on this run; that option stores the assumed kind of value (int / float / str / bool "
+              "/ list of these / KEY=VALUE dict, the default being of the same kind) and can be None exactly where the record has an option type",
+    "dests_derived": "for every option of {c}.get_parser() the dest the reader computed equals argparse's derivation (dest=, else the first "
+                     "long flag, dashes stripped / replaced) as defined in Cli.opt_dest",
+    "dests_distinct": "no two options of {c}.get_parser() share a dest, and no flag is declared twice",
+    "seed": "{c}.get_parser() declares --seed as the one option stored at args.seed, an int option whose default is a non-negative int literal: "
+            "get_prng_from_seed_argument never sees None, and the default seed is one SeedSequence accepts",
+    "coordinates": "an option of {c}.get_parser() carrying --n-chunks / --chunk-index / --n-chains / --chain-index is stored at the attribute "
+                   "of that name, holds an int and is never None",
+    "params": "every option of {c}.get_parser() whose flag ends in -param uses KVAppendAction with nargs=1, no type and no default: a KEY=VALUE "
+              "dict or None",
+    "fraction": "{c}.get_parser() declares --holdout-fraction as the one option stored at args.holdout_fraction: a float option, never None, "
+                "whose default is a float literal in [0, 1]",
+}
+
+
+def parser_theorems(pid, plan):
+    """plan = {command: [what, ...]} -> {theorem name: meaning}"""
+    out = {}
+    for c, whats in plan.items():
+        for w in whats:
+            out["%s_source_parser_%s_%s" % (pid, c, w)] = _PARSER_MEANING[w].format(c=c, f=_PARSER_FIELDS[c])
+    return out
+
+
+def parser_explanation(commands):
+    return ("  Option tables (theorems *_source_parser_*): get_parser() of %s is re-read from /repo on every run by harness/argparse_reader.py "
+            "into Generated/SrcParser_<command>.v (one file per command; not py2gal: a dedicated fail-closed reader) and the theorems are proved "
+            "by evaluating checkers on that table (Proofs/C18Parser.v, C18SourceParser_<command>.v).  They trust: (a) the reader, which accepts "
+            "ONLY `parser = argparse.ArgumentParser(description=<literal>)`, `log_config.add_logging_args(parser)` (that function read the same "
+            "way), `parser.add_argument(<flag literals>, type=int|float|str|str_to_bool, default=<literal|list()>, required=<bool>, "
+            "action=<store|store_true|store_false|append|count literal|KVAppendAction>, nargs=<int|'+'|'*'|'?'>, choices=<literals>, dest=<literal>, "
+            "help= / metavar= (dropped))` and `return parser`, with argparse / log_config / KVAppendAction / str_to_bool / int / float / str / list bound "
+            "as they look (checked on the module's bindings) and KVAppendAction a plain argparse.Action subclass defining only __call__ - "
+            "anything else is refused and the theorems stop compiling; (b) argparse's reading of one declaration as written at the end of "
+            "Model/Cli.v (opt_dest, opt_default, opt_kind, opt_may_be_none; shapes it does not know - nargs='?', append, count, a default "
+            "of another kind - get NO kind, so no field can rely on them); (c) the hand-written field tables Cli.*_fields (checked at run "
+            "time against the CLI_* / ARGS_* configurations of the translated main() / get_args()).  Runtime (kind cli_args, ops parser / "
+            "parser_synth): the table read from the text is compared with the parser object the text builds (flags, dest, type, default, "
+            "required, action class, nargs, choices); the real parser is run on generated command lines (attribute set = the table's dests, "
+            "absent options = the table's defaults, every assumed attribute of the assumed kind); under C18 the model's reading of each "
+            "declaration is compared with argparse's (op 13), on the shipped parsers and on synthetic get_parser sources.  The automatic "
+            "-h/--help option is not part of a table.  " % ", ".join(commands))
